@@ -83,6 +83,8 @@ func GenHistory(t *rapid.T, queries string) History {
 	hx, hy := rapid.IntRange(0, grid).Draw(t, "hotx"), rapid.IntRange(0, grid).Draw(t, "hoty")
 	hotWide := rapid.Bool().Draw(t, "hotwide")
 	h.Float = rapid.IntRange(0, 2).Draw(t, "float") == 1
+	// one history in twelve stores many objects without any point (whole nodes of them)
+	emptyHeavy := rapid.IntRange(0, 11).Draw(t, "emptyheavy") == 7
 	for i := 0; i < n; i++ {
 		stay := 24
 		if phase == 3 {
@@ -112,7 +114,7 @@ func GenHistory(t *rapid.T, queries string) History {
 			}
 			op.K, op.Box = "ins", [4]int{hx - r, hy - r, 2 * r, 2 * r}
 		case "ins":
-			if h.Kind == "bounds" && queries == "search" && rapid.IntRange(0, 39).Draw(t, "emptyobj") == 17 { // not for nearest-neighbour histories: an object without points has no distance
+			if h.Kind == "bounds" && queries == "search" && (rapid.IntRange(0, 39).Draw(t, "emptyobj") == 17 || emptyHeavy && rapid.IntRange(0, 2).Draw(t, "emptyobj2") == 1) { // not for nearest-neighbour histories: an object without points has no distance
 				op.Empty = true
 			}
 			op.Box = [4]int{rapid.IntRange(0, grid).Draw(t, "x"), rapid.IntRange(0, grid).Draw(t, "y"), rapid.IntRange(0, 3).Draw(t, "w"), rapid.IntRange(0, 3).Draw(t, "h")}
